@@ -84,6 +84,39 @@ theorem timeout_discards_without_delivery (a : TSpec) (t : Nat) :
   | none => simp
   | some dl => by_cases h : dl ≤ t <;> simp [h]
 
+/-- Time passing composes: looking at the clock at an intermediate instant `t1 ≤ t2` (which is all that a callback of the
+    transport that is no received unit — `pause_writing`, `resume_writing`, a wake-up of the loop — amounts to) changes
+    neither what fires until `t2` nor the state at `t2`.  Only received units move the deadline. -/
+theorem intermediate_instants_are_transparent (a : TSpec) (t1 t2 : Nat) (h : t1 ≤ t2) :
+    (specAdvance t2 (specAdvance t1 a).1).1 = (specAdvance t2 a).1 ∧
+    (specAdvance t1 a).2 ++ (specAdvance t2 (specAdvance t1 a).1).2 = (specAdvance t2 a).2 := by
+  unfold specAdvance
+  cases ha : a.armed with
+  | none => simp [ha]
+  | some dl =>
+    by_cases h1 : dl ≤ t1
+    · have h2 : dl ≤ t2 := by omega
+      simp [h1, h2]
+    · by_cases h2 : dl ≤ t2 <;> simp [h1, h2, ha]
+
+/-- the same for whole histories: an `idleUntil` event inserted in front of any event that happens no earlier changes
+    no later output (its own output lists what fired up to that instant, which the next event would have listed) -/
+theorem idle_event_changes_nothing_later (a : TSpec) (t : Nat) (e : TEv) (es : List TEv) (h : t ≤ e.time) :
+    let r := tspecStep L timeout a (.idleUntil t)
+    (tspecStep L timeout r.1 e).1 = (tspecStep L timeout a e).1 ∧
+    r.2.fired ++ (tspecStep L timeout r.1 e).2.fired = (tspecStep L timeout a e).2.fired ∧
+    (tspecStep L timeout r.1 e).2.out = (tspecStep L timeout a e).2.out ∧
+    tspecRun L timeout (tspecStep L timeout r.1 e).1 es = tspecRun L timeout (tspecStep L timeout a e).1 es := by
+  intro r
+  have key := intermediate_instants_are_transparent a t e.time h
+  have hr1 : r.1 = (specAdvance t a).1 := rfl
+  have hr2 : r.2.fired = (specAdvance t a).2 := rfl
+  have hstate : (tspecStep L timeout r.1 e).1 = (tspecStep L timeout a e).1 := by
+    cases e <;> simp only [tspecStep, TEv.time, hr1] at key ⊢ <;> rw [key.1]
+  refine ⟨hstate, ?_, ?_, by rw [hstate]⟩
+  · cases e <;> simp only [tspecStep, TEv.time, hr1, hr2] at key ⊢ <;> exact key.2
+  · cases e <;> simp only [tspecStep, TEv.time, hr1] at key ⊢ <;> rw [key.1]
+
 /-- arrival times of a list of `recv` events are paced: each unit arrives strictly before the deadline
     granted by its predecessor -/
 def Paced (timeout : Nat) : Nat → List (Nat × Bytes) → Prop
